@@ -184,6 +184,7 @@ def run(ctx):
                 cases.append(sx([0, ops]))
                 metas.append((0, False, ops))
     impl, model = ctx.correspond("attr_history", cases)
+    lib.kernel_crosscheck(ctx, [("attr_history", c, m) for c, m in zip(cases, model)])
     for (flavor, assign, ops), line in zip(metas, impl):
         ctx.count("hist:assign" if assign else "hist:quantified")
         ctx.count("ops", len(ops))
